@@ -16,6 +16,8 @@ LSP_TYPE_SPEC = Union[
     "ArrayType",
     "LiteralType",
     "StringLiteralType",
+    "IntegerLiteralType",
+    "BooleanLiteralType",
     "MapType",
     "TupleType",
 ]
@@ -65,6 +67,8 @@ def convert_to_lsp_type(**type_info) -> Optional[LSP_TYPE_SPEC]:
         "literal": LiteralType,
         "map": MapType,
         "stringLiteral": StringLiteralType,
+        "integerLiteral": IntegerLiteralType,
+        "booleanLiteral": BooleanLiteralType,
         "tuple": TupleType,
     }
     callable = lut.get(type_info["kind"])
@@ -86,6 +90,8 @@ def type_validator(instance: Any, attribute: str, value: Any) -> bool:
             AndType,
             MapType,
             StringLiteralType,
+            IntegerLiteralType,
+            BooleanLiteralType,
             TupleType,
         ),
     )
@@ -272,6 +278,44 @@ class StringLiteralType:
 
     def __eq__(self, other: object) -> bool:
         if isinstance(other, StringLiteralType):
+            return self.value == other.value and self.kind == other.kind
+        return False
+
+    def get_inner_types(self) -> List[Type]:
+        return []
+
+
+@attrs.define
+class IntegerLiteralType:
+    kind: str = attrs.field(validator=attrs.validators.in_(["integerLiteral"]))
+    value: int = attrs.field(validator=attrs.validators.instance_of(int))
+    id_: Optional[str] = attrs.field(
+        converter=lambda x: str(uuid.uuid4()),
+        validator=attrs.validators.optional(attrs.validators.instance_of(str)),
+        default=None,
+    )
+
+    def __eq__(self, other: object) -> bool:
+        if isinstance(other, IntegerLiteralType):
+            return self.value == other.value and self.kind == other.kind
+        return False
+
+    def get_inner_types(self) -> List[Type]:
+        return []
+
+
+@attrs.define
+class BooleanLiteralType:
+    kind: str = attrs.field(validator=attrs.validators.in_(["booleanLiteral"]))
+    value: bool = attrs.field(validator=attrs.validators.instance_of(bool))
+    id_: Optional[str] = attrs.field(
+        converter=lambda x: str(uuid.uuid4()),
+        validator=attrs.validators.optional(attrs.validators.instance_of(str)),
+        default=None,
+    )
+
+    def __eq__(self, other: object) -> bool:
+        if isinstance(other, BooleanLiteralType):
             return self.value == other.value and self.kind == other.kind
         return False
 
